@@ -20,7 +20,7 @@ from ..rules import twins
 from ..rules.absint import NotConst, const_eval
 from ..rules.alpha_equiv import mirror_check
 from ..rules.versioned import CanonNormalizer
-from ..terms import PI, Poly
+from ..terms import PI, Normalizer, Poly
 
 FFT = "abtem.core.fft"
 IDENT = {"np.expand_dims", "xp.expand_dims", "np.asarray", "xp.asarray", "np.array", "xp.array", "float", "int"}
@@ -372,3 +372,73 @@ def _shift(ctx, repo) -> None:
     want = CanonNormalizer(dg, at).norm(ast.parse(f"fft2({a}) * fft_shift_kernel({p}, {a}.shape[-2:])", mode="eval").body)
     ctx.check(got == want, "R-TERM", f"{g.qualname}:composition", g.loc(rets[0]), f"ifft2({_k(got)})",
               f"fft_shift computes ifft2({_k(got)}) instead of ifft2({_k(want)})", key_detail="compose")
+
+
+# ---- added after the seeded change C15-r3seed7: the n-dimensional arm transforms the *trailing* axes
+_inner_run_c15 = run
+
+
+def run(ctx) -> None:  # noqa: F811
+    ctx.rule("R-TRAILING", "fft_interpolate resamples the trailing len(new_shape) axes (fft_crop pads/crops those; the "
+             "old size is read from array.shape[-len(new_shape):]): every value of the `axes` handed to fftn / ifftn "
+             "is range(lo, hi) with hi == len(array.shape) and lo == len(array.shape) - len(new_shape) (lo == 0 only "
+             "under the guard len(new_shape) == len(array.shape)), and fftn and ifftn get the same axes.  Leading axes "
+             "would transform the ensemble dimensions and crop real-space samples as if they were coefficients")
+    repo = ctx.repo
+    f = repo.function(FFT, "fft_interpolate")
+    arr, ns = f.positional_params[:2]
+    df = DataFlow(f.node)
+    nz = Normalizer()
+    N = nz.norm(ast.parse(f"len({arr}.shape)", mode="eval").body)
+    M = nz.norm(ast.parse(f"len({ns})", mode="eval").body)
+    calls = [c for c in walk_no_nested(f.node) if isinstance(c, ast.Call) and call_name(c) in ("fftn", "ifftn")]
+    if not calls:
+        ctx.info("R-TRAILING", f"{f.qualname}:n-d arm", f.where, "no fftn/ifftn arm: only 2-d resampling")
+        _inner_run_c15(ctx)
+        return
+    seen_axes = set()
+    for c in calls:
+        ax = next((k.value for k in c.keywords if k.arg == "axes"), None)
+        ctx.require(ax is not None, f"{f.qualname}: {call_name(c)} called without axes=")
+        st = _stmt_of(f.node, c)
+        at = df.cfg.node_of(st).idx
+        alts = []
+        if isinstance(ax, ast.Name):
+            for d in df.reaching(at, ax.id):
+                ctx.require(d.kind == "assign" and d.value is not None, f"{f.qualname}: `{ax.id}` is not assigned")
+                alts.append((d.value, d.node))
+        else:
+            alts.append((ax, at))
+        seen_axes.add(norm_text(ax))
+        for val, node in alts:
+            v = val
+            while isinstance(v, ast.Call) and call_name(v) in ("tuple", "list") and len(v.args) == 1:
+                v = v.args[0]
+            ctx.require(isinstance(v, ast.Call) and call_name(v) == "range" and 1 <= len(v.args) <= 2,
+                        f"{f.qualname}: axes value `{norm_text(val)[:50]}` is not range(lo, hi)")
+            lo = nz.norm(v.args[0]) if len(v.args) == 2 else Poly()
+            hi = nz.norm(v.args[-1])
+            # guard of this definition: len(new_shape) == len(array.shape) makes lo == 0 the trailing axes as well
+            stn = df.cfg.nodes[node].ast
+            same_len = False
+            for i_ in walk_no_nested(f.node):
+                if isinstance(i_, ast.If) and isinstance(i_.test, ast.Compare) and len(i_.test.ops) == 1:
+                    l_, r_ = nz.norm(i_.test.left), nz.norm(i_.test.comparators[0])
+                    if {l_.key(), r_.key()} == {N.key(), M.key()}:
+                        in_body = any(x is stn for b in i_.body for x in ast.walk(b))
+                        in_else = any(x is stn for b in i_.orelse for x in ast.walk(b))
+                        if (isinstance(i_.test.ops[0], ast.Eq) and in_body) or (isinstance(i_.test.ops[0], ast.NotEq) and in_else):
+                            same_len = True
+            good = hi == N and (lo == N - M or (same_len and lo.is_zero()))
+            if same_len and hi == M and lo.is_zero():
+                good = True
+            ctx.check(good, "R-TRAILING", f"{f.qualname}:{call_name(c)} axes", f.loc(val),
+                      f"{call_name(c)} over range({_k(lo)}, {_k(hi)}): the trailing len({ns}) axes",
+                      f"{call_name(c)} transforms axes range({_k(lo)}, {_k(hi)}); the resampled axes are the trailing ones, "
+                      f"range(len({arr}.shape) - len({ns}), len({arr}.shape)): with ensemble dimensions in front the "
+                      "transform runs over the wrong axes while fft_crop still crops the trailing ones",
+                      key_detail="trailing")
+    ctx.check(len(seen_axes) == 1, "R-TRAILING", f"{f.qualname}:fftn/ifftn same axes", f.where,
+              "forward and inverse transform use the same axes", f"fftn and ifftn are given different axes {sorted(seen_axes)}",
+              key_detail="same-axes")
+    _inner_run_c15(ctx)
